@@ -188,8 +188,14 @@ where
                         }
                     } else if char == OSC {
                         let code = co.yield_(None).unwrap_or_default();
-                        if code == "R" || code == "p" {
+                        if code == "R" {
                             continue; // reset palette not implemented
+                        } else if code == "P" {
+                            // set palette not implemented
+                            for _ in 0..7 {
+                                co.yield_(None);
+                            }
+                            continue;
                         }
                         let mut param = "".to_owned();
 
@@ -312,8 +318,14 @@ where
                         }
                     } else if char == OSC {
                         let code = co.yield_(None).unwrap_or_default();
-                        if code == "R" || code == "p" {
+                        if code == "R" {
                             continue; // reset palette not implemented
+                        } else if code == "P" {
+                            // set palette not implemented
+                            for _ in 0..7 {
+                                co.yield_(None);
+                            }
+                            continue;
                         }
                         let mut param = "".to_owned();
 
